@@ -26,8 +26,8 @@ def from_notes(pid):
     if not os.path.exists(fn): return None
     t = open(fn).read()
     def grab(key):
-        m = re.search(r'`?%s`?\s*:\s*"(.*?)"[\s.]*(?:\n|$)' % re.escape(key), t, flags=re.S)
-        return re.sub(r'\s+', ' ', m.group(1)).strip() if m else None
+        ms = list(re.finditer(r'`?%s`?\s*:\s*"(.*?)"[\s.]*(?:\n|$)' % re.escape(key), t, flags=re.S))
+        return re.sub(r'\s+', ' ', ms[-1].group(1)).strip() if ms else None     # the LAST proposal in the notes wins
     a, b = grab('level_claimed.text'), grab('level_note')
     return (a, b) if a and b else None
 # properties whose check is registered (engine label); text comes from CHECKS or from notes/<ID>.md
